@@ -26,7 +26,11 @@ META = {
             "allocator and only their reuse/metadata behaviour is monitored (SwissString vs std::string differential); "
             "protobuf messages are not modelled, a managed ArenaExample is monitored against a heap message (equal "
             "contents; after every manager.clear(), rebuild included, equal to a fresh message: has-bits, ByteSizeLong, "
-            "serialisation).  Precondition: arguments do not alias the vector's own elements.  History: insert of zero "
+            "serialisation, DebugString), managed BOTH through typed create_object<T>() and base-registered "
+            "create_object<google::protobuf::Message>(creator); that reserve() itself ends with message.Clear() is regenerated "
+            "(msg_reserve_clears) and required by c12_message_recreate_fresh.  The theorems assume that arguments do not alias "
+            "the vector's own elements; the real class is monitored with aliasing arguments against std::vector and differs "
+            "(finding aliased-argument: push_back(v[i]) at a growth boundary, insert(pos, v[i]), insert(pos, n, v[i])).  History: insert of zero "
             "elements used to self-move-assign every constructed element from the position on (fixed in 5fb90d9 by an "
             "early return, now regenerated as pfi_zero_cond / pfi_zero_ret and required by the proofs) and a message "
             "rebuilt by the manager kept the has-bit of used sub-messages (fixed in 6344245); both are ordinary monitors "
@@ -357,7 +361,8 @@ def main(argv):
                        "window of prepare_for_insert up to constructed 4 (5 thorough) through insert(n), insert(range) and "
                        "emplace, seeded random sequences whose counts/sizes are aimed at the constructed_size boundary, "
                        "manager workloads for intervals 0,1,2,3,5 over 3 periods + 2 cycles, managed SwissString vs "
-                       "std::string, managed protobuf ArenaExample vs heap message (intervals 1,2,3,5); non-trivial = distinct "
+                       "std::string, protobuf ArenaExample managed typed and base-registered vs heap message (intervals 1,2,3,5, constant and "
+                       "alternating heavy/light workloads), aliasing-argument cases (push_back(v[i]), insert(pos[,n], v[i])); non-trivial = distinct "
                        "cases that operate on a vector holding constructed elements beyond its size")
     for i, ty, mode, t in lines[:: max(1, len(lines) // 5)]:
         chk.sample({"case": t, "impl": (impl_out.get(i) or "")[:400], "model": (model_out.get(i) or "")[:400]})
